@@ -211,7 +211,11 @@ func main() {
 		}
 		for k, v := range r.Violations {
 			if k < 5 {
-				fmt.Fprintf(os.Stderr, "  violation: [%s] %s at %s assignment=%v choices=%v\n", v.Kind, v.Msg, v.Pos, v.Assignment, v.Choices)
+				ch := v.Choices
+				if len(ch) > 12 {
+					ch = append(append([]string{}, ch[:6]...), "...")
+				}
+				fmt.Fprintf(os.Stderr, "  violation: [%s] %s at %s assignment=%v choices=%v\n", v.Kind, v.Msg, v.Pos, v.Assignment, ch)
 			}
 		}
 	}
